@@ -1,7 +1,7 @@
 """C11 -- the action mask agrees with what the simulator would refuse."""
 import json
 from lib.common import coq_props, coq_cases
-from lib import world, reqwalk, gen_tie, family
+from lib import world, reqwalk, gen_tie, family, docmask
 
 POWER = ("node-shutdown", "node-startup", "node-reset", "node-service-stop", "node-service-restart", "node-service-pause",
          "node-service-disable", "node-application-close", "node-application-install", "node-application-remove",
@@ -55,6 +55,12 @@ def explore(ck, name, cfg, steps, label):
                     sample={"scenario": name, "step": st, "entry": i, "action": t, "options": o, "mask": int(mask[i]), "reaches": reaches}
                     if (not reaches and len(ck.samples) < 4) else None)
             ck.count("mask=%d" % int(mask[i]))
+            doc = docmask.available(sim, t, o)
+            if doc is not None and bool(mask[i]) != doc:
+                ck.violation("mask-vs-documented-table:%s" % t,
+                             "mask[%d]=%d for %s %s but the documented masking rule evaluated on the simulator objects gives %s" % (i, int(mask[i]), t, o, doc),
+                             {"scenario": name, "step": st, "entry": i, "action": t, "options": o, "request": req, "mask": int(mask[i]),
+                              "documented": doc, "history": hist(env)})
             if bool(mask[i]) != reaches:
                 ck.violation("mask-disagrees:%s" % t,
                              "mask[%d]=%d for %s %s but walking the request tree now says reaches-handler=%s" % (i, int(mask[i]), t, o, reaches),
@@ -126,7 +132,7 @@ def hist(env):
 
 def scenarios(ck):
     out = [("pkg/data_manipulation.yaml", world.load_cfg(world.PKG + "/data_manipulation.yaml")),
-           ("family/%d" % ck.seed, family.generate(ck.seed)), ("family/%d" % (ck.seed + 1), family.generate(ck.seed + 1))]
+           ("family/%d" % ck.seed, family.generate(ck.seed)), ("family/%d+off" % (ck.seed + 1), family.generate(ck.seed + 1, force_off=True))]
     if not ck.quick:
         out.append(("pkg/uc7_config.yaml", world.load_cfg(world.PKG + "/uc7_config.yaml")))
         for k in range(2, 8):
